@@ -142,3 +142,12 @@ pub proof fn lemma_exp_fin_list_intro(e: Exp)
         e is Min || e is Max,
     ensures exp_fin(e),
 { reveal_with_fuel(exp_fin, 1); }
+// one-step unfoldings for the structural logic variants (plain lemmas: call them where needed)
+pub proof fn lemma_sem_not(a: Box<Exp>, env: Env)
+    ensures sem(Exp::Not(a), env) == (match sem(*a, env) { Some(x) => Some(b2r(!truthy(x))), None => None::<real> }) {}
+pub proof fn lemma_sem_xor(a: Box<Exp>, b: Box<Exp>, env: Env)
+    ensures sem(Exp::Xor(a, b), env) == (match (sem(*a, env), sem(*b, env)) { (Some(x), Some(y)) => sem_binop(BinOp::Xor, x, y), _ => None::<real> }) {}
+pub proof fn lemma_sem_implies(a: Box<Exp>, b: Box<Exp>, env: Env)
+    ensures sem(Exp::Implies(a, b), env) == (match (sem(*a, env), sem(*b, env)) { (Some(x), Some(y)) => sem_binop(BinOp::Implies, x, y), _ => None::<real> }) {}
+pub proof fn lemma_sem_iff(a: Box<Exp>, b: Box<Exp>, env: Env)
+    ensures sem(Exp::Iff(a, b), env) == (match (sem(*a, env), sem(*b, env)) { (Some(x), Some(y)) => sem_binop(BinOp::Iff, x, y), _ => None::<real> }) {}
